@@ -168,18 +168,17 @@ static inline bool validate_number_delimiter(edn_parser_t* parser, const char* s
 /*
  * Binary GCD algorithm (Stein's algorithm)
  */
-static int64_t ratio_gcd(int64_t a, int64_t b) {
-    /* Make both values positive for GCD calculation */
-    if (a < 0)
-        a = -a;
-    if (b < 0)
-        b = -b;
+static int64_t ratio_gcd(int64_t sa, int64_t sb) {
+    /* Work on magnitudes in unsigned arithmetic: -INT64_MIN does not exist as
+     * an int64_t, and a negative operand would never terminate the loop below. */
+    uint64_t a = sa < 0 ? 0 - (uint64_t) sa : (uint64_t) sa;
+    uint64_t b = sb < 0 ? 0 - (uint64_t) sb : (uint64_t) sb;
 
     /* Handle edge cases */
     if (a == 0)
-        return b;
+        return (int64_t) b;
     if (b == 0)
-        return a;
+        return (int64_t) a;
 
     /* Find common factor of 2 */
     int shift = 0;
@@ -203,7 +202,7 @@ static int64_t ratio_gcd(int64_t a, int64_t b) {
 
         /* Ensure a <= b, swap if needed */
         if (a > b) {
-            int64_t temp = a;
+            uint64_t temp = a;
             a = b;
             b = temp;
         }
@@ -213,7 +212,7 @@ static int64_t ratio_gcd(int64_t a, int64_t b) {
     } while (b != 0);
 
     /* Restore common factors of 2 */
-    return a << shift;
+    return (int64_t) (a << shift);
 }
 #endif
 
